@@ -364,12 +364,20 @@ def _singlet_higher_logs(chk, src, pe, ft):
             names = ("gluon", "light-quark", "heavy")
             for name, lhs, rhs, cols in rules:
                 worst, where_ = 0.0, None
-                scale = max(1.0, max(abs(complex(sp.N(x))) for x in rhs))
-                for r in range(3):
-                    for c in cols:
-                        dv = abs(complex(sp.N(lhs[r, c] - rhs[r, c]))) / scale
-                        if dv > worst:
-                            worst, where_ = dv, (r, c)
+                try:
+                    scale = max(1.0, max(abs(complex(sp.N(x))) for x in rhs))
+                    for r in range(3):
+                        for c in cols:
+                            dv = abs(complex(sp.N(lhs[r, c] - rhs[r, c]))) / scale
+                            if dv > worst:
+                                worst, where_ = dv, (r, c)
+                except (TypeError, ValueError) as e:
+                    n += 1
+                    left = sorted(str(a_) for x in list(lhs) + list(rhs) for a_ in sp.sympify(x).free_symbols)[:4]
+                    chk.fail("higher-order-logs-follow-from-rg-invariance", fS.qname,
+                             f"singlet, {inst}, {name} coefficient: no numerical value at the integer moment ({e}); unevaluated: {left} - a harmonic "
+                             f"sum is requested without the parity flag of the element", where=fS.where, instance=f"singlet,{inst},{name}")
+                    continue
                 n += 1
                 chk.decide(worst <= 1e-10, "higher-order-logs-follow-from-rg-invariance", fS.qname,
                            f"singlet, {inst}, {name} coefficient: entry {names[where_[0]] if where_ else ''}<-{names[where_[1]] if where_ else ''} "
